@@ -204,7 +204,56 @@ def case_generator(name, opts, dtype, backend):
     return CaseResult(fails=fails, states=states, transitions=trans, traces=trans, outcome=f"{tag}:{dtype}:{backend}:{outcomes > 0}")
 
 
-CASES = {"generator": case_generator}
+# (not the complex product: its two-part assignment is not documented as safe in place and the solvers never call it so)
+ELEMENTWISE = ("elementwise_sum", "elementwise_saxpby", "add_fixed_val", "elementwise_copy", "brinkmann_penalise", "char_func_from_level_set")
+
+
+def case_inplace(name, opts, dtype):
+    """Cell-by-cell kernels called IN PLACE: the output array is also one of the inputs (same array object),
+    which is how the simulators use them (field = field + flux).  Every input of the output's kind is aliased
+    in turn; the result must be the documented closed form of the values held before the call."""
+    real_t = np.dtype(dtype).type
+    eps = float(np.finfo(real_t).eps)
+    cdt = np.complex64 if real_t == np.float32 else np.complex128
+    sp = kernelspec.spec(name, opts)
+    d = registry.gen_dim(name)
+    shim.set_backend("interp")
+    fails = []
+    states = trans = 0
+    tag = f"{name}:{','.join(f'{k}={v}' for k, v in sorted(opts.items()))}"
+    outs = [(a, k) for a, k, r in sp["arrays"] if r in ("out", "inout")]
+    for shape in shapes_for(name, opts)[1:3]:
+        fn, aux = registry.instantiate(name, opts, real_t, num_threads=False, shape=shape)
+        for out_arg, out_kind in outs:
+            for in_arg, in_kind, role in sp["arrays"]:
+                if role != "in" or in_kind != out_kind:
+                    continue
+                views, A = {}, {}
+                for k, (arg, kind, _r) in enumerate(sp["arrays"]):
+                    shp = shape if kind in ("s", "s+", "c") else (d, *shape)
+                    vals = _values(shp, k, kind, "dense", sp.get("input_scale", 1.0))
+                    if kind == "c":
+                        vals = vals + 1j * _values(shp, k + 7, kind, "dense")
+                    views[arg] = np.ascontiguousarray(vals.astype(cdt if kind == "c" else real_t))
+                views[out_arg] = views[in_arg]  # the SAME array object
+                for arg, kind, _r in sp["arrays"]:
+                    A[arg] = views[arg].astype(np.complex128 if kind == "c" else np.float64).copy()
+                s_pass, s_mean = kernelspec.scalar_variant(sp["scalars"], "generic:float", real_t)
+                fn(**views, **s_pass)
+                trans += 1
+                exp, mask = sp["ref"](A, s_mean, aux)[out_arg]
+                got = views[out_arg].astype(np.complex128 if out_kind == "c" else np.float64)
+                mag = 1.0 + max(float(np.abs(A[a]).max()) for a in A) ** 2 + float(np.abs(exp).max())
+                states += 1
+                if not np.all(np.abs(got - exp)[np.broadcast_to(mask, got.shape)] <= 64 * eps * mag):
+                    fails.append(Fail(f"{tag}:in-place", "kernel called with its output array also bound to an input does not produce its documented value", output=out_arg, aliased_input=in_arg, shape=shape, dtype=dtype))
+                for arg, kind, r_ in sp["arrays"]:
+                    if r_ == "in" and arg != in_arg and views[arg].astype(np.complex128 if kind == "c" else np.float64).tobytes() != A[arg].tobytes():
+                        fails.append(Fail(f"{tag}:in-place:input-modified", "another input array was modified", argument=arg))
+    return CaseResult(fails=fails, states=states, transitions=trans, traces=trans, outcome=f"inplace:{tag}:{dtype}:{states > 0}")
+
+
+CASES = {"generator": case_generator, "inplace": case_inplace}
 
 
 def run(r) -> None:
@@ -218,6 +267,8 @@ def run(r) -> None:
                 cases.append(dict(name=name, opts=opts, dtype=dt, backend="jit"))
     cases.sort(key=lambda c: (c["backend"] != "jit", "3d" not in c["name"]))
     r.run_cases("generators", "generator", cases)
+    inpl = [dict(name=n, opts=o, dtype=dt) for n, o in registry.entries() if any(e in n for e in ELEMENTWISE) and not o.get("fixed") for dt in ("float64", "float32")]
+    r.run_cases("in-place-calls", "inplace", inpl)
     r.bounds = {"generators_x_options": len(registry.entries()), "dtypes": 2, "shapes_per_generator": 4, "bindings": BINDINGS, "patterns": PATTERNS, "scalar_arguments": kernelspec.SCALAR_VARIANTS, "call_styles": ["keyword", "positional (wrapper closures)"], "backends": ["interp"] if quick else ["interp", "jit"]}
     r.extra["rule"] = "one state per (generator option tuple, dtype, shape, binding, pattern, array argument): value on the documented region vs closed form, raw bytes everywhere else"
     r.assumptions = ["quick tier executes the captured kernels on the interpreter (bound to the generated code by conformance replay, incl. strided bindings); thorough tier repeats on the JIT back end (4-D kernels: interpreter only)"]
